@@ -139,6 +139,10 @@ def run_recv(seed, stream, cfg, res=None, peer_extra=None, side=None, policy=Non
                 except BaseException as e:  # noqa
                     obs.append(["exc", exc_name(e), int(isinstance(e, ws.WebSocketException)),
                                 int(isinstance(e, OSError))])
+                    consumed_after.append(sock_obj.consumed)
+                    calls += 1
+                    if cfg.get("continue_after_exc") and isinstance(e, (ws.WebSocketProtocolException, ws.WebSocketPayloadException)):
+                        continue  # the caller shrugs the rejected frame / message off and keeps receiving
                     break
                 calls += 1
                 obs.append(["ret", obs_value(v)])
